@@ -478,6 +478,22 @@ def ftp_symlink_classes():
     return c
 
 
+def ftp_option_classes():
+    """Ordinary FTP conversations under options that change what is done with the answers."""
+    c = {}
+    # MLSD knows symbolic links but has no field for their target
+    c['fo_mlsd_symlink'] = dict(mlsd={'/sub/': b'type=symlink; lnk\r\ntype=OS.unix=slink:/etc/passwd; lnk2\r\ntype=file;size=3; a.txt\r\n'},
+                                argv=['--retr-symlinks=off'], run_as='ftplist')
+    # --timestamping with the local copy already there (a second run of the same mirror job)
+    # (-N selects the timestamping writer only without -r: the plain "keep these files up to date" call)
+    c['fo_timestamping_second_run'] = dict(argv=['-N'], prefiles={'f.test/h.txt': 'hhh'}, run_as='ftpparent', norec=True)
+    # -P DIR, DIR not existing yet, a file URL given directly (its parent is listed into a temporary file first)
+    c['fo_new_directory_file_url'] = dict(argv=['-P', 'new/dir'], run_as='ftpparent', norec=True, only_file=True)
+    c['fo_no_remove_listing'] = dict(argv=['--no-remove-listing'])
+    c['fo_no_glob'] = dict(argv=['--no-glob'])
+    return c
+
+
 def ftp_continue_classes():
     """--continue with a partial local copy of the target: what the server says to REST."""
     c = {}
@@ -523,7 +539,7 @@ def check_names(tla_wire_names, tla_tokens=None):
     """Both sides must list the same class names."""
     mine = set(page_classes()) | set(robots_classes()) | set(ftp_classes()) | set(ftp_listing_classes()) | set(ftp_parent_classes())
     mine |= set(ftp_perm_classes()) | set(ftp_symlink_classes()) | set(ftp_continue_classes()) | set(http_continue_classes())
-    mine |= set(ftp_warc_classes()) | set(http_warc_classes())
+    mine |= set(ftp_warc_classes()) | set(http_warc_classes()) | set(ftp_option_classes())
     theirs = set(tla_wire_names)
     if mine != theirs:
         raise AssertionError('wire classes differ: only in python %s; only in TLA+ %s'
